@@ -127,15 +127,15 @@ CHECKS = {
         thorough=dict(stages=[st(0, fuzz="FuzzMassConserved", fuzztime="60s", timeout=600), st(60000, shards=16, timeout=3500)]),
     ),
     "C13": dict(
-        require={'spill': 0.03, 'below-10%': 0.1, 'rain/evaporation-on-water': 0.2},
+        require={'spill': 0.03, 'below-10%': 0.1, 'rain/evaporation-on-water': 0.2, 'sub-step-floor-reached': 0.03},
         pkg="c13", level="exploration",
-        rule="rapid-generated Storage cases (monotone level-volume-area tables and min/max release curves with minRelease <= maxRelease, 2..6 points - in one case of twenty 31..100 points -, zero release/area at zero volume; DeltaT 3600..86400; inflow/demand/rainfall/PET series in filling, drawing-down, alternating and balanced modes; initial volume 0, from a previous run, or drawn up to 1.3x full supply); "
+        rule="rapid-generated Storage cases (monotone level-volume-area tables and min/max release curves with minRelease <= maxRelease, 2..6 points - in one case of twenty 31..100 points -, zero release/area at zero volume; DeltaT 3600..86400; inflow/demand/rainfall/PET series in filling, drawing-down, alternating and balanced modes; initial volume 0, from a previous run, or drawn up to 1.3x full supply; plus a class at the sub-step controller's floor: release slope between 1/sub and 0.16 per second where sub in (6,12] is the last sub-step halving reaches from DeltaT in {7..12, 20, 80, 150, 600, 3600, 21600, 86400}, draw-down from a drawn volume towards equilibria over six decades); "
              "oracle: per-step dV = (inflow - outflow)*dt + (rainfallVolume - evaporationVolume)*dt within 1e-9 relative, V >= 0, final level/area = own interpolation of the tables, clamp(demand, minRel, maxRel) at the lower/upper volume traversed bounds the outflow (with the integrator's own acceptance slack), more only as spill when the volume reached the top of the table. "
              "Non-trivial = rain/evaporation acting on a non-empty store, or a series that both spills and falls below 10%; distinct = distinct case",
-        assumptions=["release-curve slopes <= 1e-4 (m^3/s)/m^3 and zero release at zero volume, so that the model's minimum sub-timestep (6 s) can follow the draw-down (otherwise the kernel panics by design)",
+        assumptions=["release-curve slopes <= 1e-4 (m^3/s)/m^3 in the general classes and < 1/6 per second in the floor class, and zero release at zero volume, so that the model's minimum sub-timestep (6 s) can follow the draw-down (otherwise the kernel panics by design)",
                      "within a step the volume moves monotonically between its end values (constant forcing, autonomous 1-D dynamics) except around an equilibrium release = net inflow, which the integrator does not resolve (absolute release tolerance 1e-4 m^3/s): there the release bounds are relaxed to the net inflow"],
-        quick=dict(stages=[st(1500, run="TestStorageBalanceAndRelease", timeout=900), st(4, shards=3, run="TestStorageLongSeries", timeout=900)]),
-        thorough=dict(stages=[st(70000, shards=13, run="TestStorageBalanceAndRelease", timeout=3500), st(60, shards=3, run="TestStorageLongSeries", timeout=3500)]),
+        quick=dict(stages=[st(1500, run="TestStorageBalanceAndRelease", timeout=900), st(4, shards=3, run="TestStorageLongSeries", timeout=900), st(300, run="TestStorageStepFloor", timeout=900)]),
+        thorough=dict(stages=[st(70000, shards=13, run="TestStorageBalanceAndRelease", timeout=3500), st(60, shards=3, run="TestStorageLongSeries", timeout=3500), st(12000, shards=4, run="TestStorageStepFloor", timeout=3500)]),
     ),
     "C16": dict(
         require={'linearity-checked': 0.02, '__nontrivial__': 0.1},
